@@ -36,6 +36,7 @@ var shapeData = []interface{}{
 var shapeCalls int
 
 func shapeOracle(o *Out, input string) {
+	defer enter("parse 0 "+hx(input), "C10", "C15", "C11", "C16", "C20", "C06", "C07")()
 	var perr error
 	var pval interface{}
 	func() {
@@ -465,7 +466,9 @@ func fragBudget(g *Gen, n int, o *Out) {
 		stepCap = 40000000
 	}
 	for _, in := range inputs {
+		leave := enter("parse 0 "+hx(in), "C11", "C10", "C15")
 		_, _, N, _ := grammar.VerifParse([]byte(in))
+		leave()
 		if N > stepCap {
 			o.count("budget:skipped-large")
 			continue
